@@ -33,7 +33,12 @@ def make_replay(pid, failed, results, tier, seed):
             _found = True
     try:
         import replay_search
-        hit = replay_search.search(pid, failed, tier, seed)
+        hit = None
+        for (ur, o) in failed:
+            if getattr(o, 'counterexample', None) and isinstance(o.counterexample, dict) and o.counterexample.get('input_hex') is not None:
+                hit = o.counterexample
+        if hit is None:
+            hit = replay_search.search(pid, failed, tier, seed)
         if hit:
             rec['failing_input'] = hit
             _found = True
